@@ -134,9 +134,9 @@ def generate(rng, tier):
         if rng.random() < 0.3:
             case["history"] = rng.choice(["add", "delete", "append"])
         return case
-    kinds = {"pickle": ["bool", "int", "float", "str", "lstr", "date", "datetime", "obool", "ustr", "timedelta", "float32", "int32", "obj"],
-             "npz": ["bool", "int", "float", "str", "date", "datetime", "obool", "ustr", "timedelta", "float32"],
-             "parquet": ["bool", "int", "float", "str", "date", "datetime"],
+    kinds = {"pickle": ["bool", "int", "float", "str", "lstr", "date", "datetime", "obool", "ustr", "timedelta", "float32", "int32", "obj", "uint64"],
+             "npz": ["bool", "int", "float", "str", "date", "datetime", "obool", "ustr", "timedelta", "float32", "uint64"],
+             "parquet": ["bool", "int", "float", "str", "date", "datetime", "uint64", "timedelta"],
              "csv": ["bool", "int", "float", "str", "date", "datetime", "float32"],
              "json": ["bool", "int", "float", "str", "obool", "float32"]}[fmt]
     ncol = rng.randint(2, 5)
